@@ -11,6 +11,7 @@ import (
 	"sync"
 	"time"
 
+	"github.com/facebookincubator/dns/dnsrocks/dnsserver"
 	"github.com/facebookincubator/dns/dnsrocks/fbserver"
 	"github.com/facebookincubator/dns/dnsrocks/metrics"
 	"github.com/miekg/dns"
@@ -33,6 +34,7 @@ type c20Config struct {
 	IP        string `json:"listen_ip"`
 	IP2       string `json:"second_listen_ip,omitempty"` // a second address with its own max-answer
 	MaxAns2   int    `json:"second_max_answer,omitempty"`
+	Cache     bool   `json:"response_cache,omitempty"` // the server runs with the response cache on (the reference handler never does)
 }
 
 type c20Exporter struct{}
@@ -246,6 +248,9 @@ func c20Worker(args []string) int {
 		conf.DBConfig.Path = path
 		conf.DBConfig.ReloadTimeout = 10 * time.Second
 		conf.RefuseANY = cfg.RefuseANY
+		if cfg.Cache {
+			conf.CacheConfig = dnsserver.CacheConfig{Enabled: true, LRUSize: 4096}
+		}
 		if cfg.Whoami {
 			conf.WhoamiDomain = c20WhoamiDomain
 		}
@@ -512,7 +517,7 @@ func oneLine(m *dns.Msg) string {
 }
 
 func runC20(r *report.Run) {
-	r.SetRule("a real fbserver.Server on a loopback port (UDP+TCP) per configuration {backend x whoami domain set/unset x refuse-any on/off x max-answer 1/3/8 x 127.0.0.1/::1, plus servers bound to two addresses with different max-answer settings}, race-detector build, child process each; generated queries (names of a generated file, standard and ANY types, one in five with a class other than IN, no EDNS / 512 / 1232 / 4096, with and without ECS) sent with a DNS client over UDP and TCP; every reply is compared canonically with the bare FBDNSDB handler on the same database, remote address and max-answer (addresses reduced to owner+type); oversized answers (40 TXT / 40 NS with glue, also asked with a client-subnet option) must come back with TC over UDP within the advertised size (actual datagram length; a truncated reply has to fit too) and complete over TCP; ANY with refusal must be exactly the synthesized HINFO; whoami-domain queries (any letter case) must be answered by the whoami handler, names below and next to the whoami domain by the database; question-less messages (QDCOUNT=0, and bare headers claiming QDCOUNT=1 with and without ARCOUNT=1, which the DNS library lets through to the front handlers) must get a failure rcode and the server must keep answering; shutdown is performed under load. non-trivial = configuration whose exchanges include a truncated reply and a TCP reply; distinct by configuration")
+	r.SetRule("a real fbserver.Server on a loopback port (UDP+TCP) per configuration {backend x whoami domain set/unset x refuse-any on/off x max-answer 1/3/8 x 127.0.0.1/::1, plus servers bound to two addresses with different max-answer settings, two of them with the response cache on (the larger max-answer is asked first)}, race-detector build, child process each; generated queries (names of a generated file, standard and ANY types, one in five with a class other than IN, no EDNS / 512 / 1232 / 4096, with and without ECS) sent with a DNS client over UDP and TCP; every reply is compared canonically with the bare FBDNSDB handler on the same database, remote address and max-answer (addresses reduced to owner+type); oversized answers (40 TXT / 40 NS with glue, also asked with a client-subnet option) must come back with TC over UDP within the advertised size (actual datagram length; a truncated reply has to fit too) and complete over TCP; ANY with refusal must be exactly the synthesized HINFO; whoami-domain queries (any letter case) must be answered by the whoami handler, names below and next to the whoami domain by the database; question-less messages (QDCOUNT=0, and bare headers claiming QDCOUNT=1 with and without ARCOUNT=1, which the DNS library lets through to the front handlers) must get a failure rcode and the server must keep answering; shutdown is performed under load. non-trivial = configuration whose exchanges include a truncated reply and a TCP reply; distinct by configuration")
 	r.Assume("loopback only; the harness picks a port free for UDP and TCP and retries on bind failure")
 	var cfgs []c20Config
 	i := 0
@@ -528,7 +533,8 @@ func runC20(r *report.Run) {
 	}
 	multi := []c20Config{
 		{Backend: "cdb", MaxAns: 1, IP: "127.0.0.1", IP2: "127.0.0.2", MaxAns2: 3},
-		{Backend: "rdb2", RefuseANY: true, MaxAns: 8, IP: "::1", IP2: "127.0.0.1", MaxAns2: 2},
+		{Backend: "rdb2", RefuseANY: true, MaxAns: 8, IP: "::1", IP2: "127.0.0.1", MaxAns2: 2, Cache: true},
+		{Backend: "rdb1", Whoami: true, MaxAns: 8, IP: "127.0.0.1", IP2: "127.0.0.2", MaxAns2: 1, Cache: true},
 	}
 	if !r.Thorough() {
 		// quick: half of the configurations, rotated by the seed (every value of every dimension still appears)
